@@ -7,7 +7,10 @@ vars == <<l, okv>>
 Ev == Log[l]
 TraceInit == TLCSet(1, 1) /\ l = 1 /\ okv = TRUE
 \* a failing call is reported by index (one line each) instead of as an invariant violation, so that ALL of them are found in one pass
-Call == LET ok == IntervalOK(Ev.n, Ev.burn, Ev.thin, Ev.f8, Ev.m, Ev.rank, Ev.ids, Ev.pids, Ev.ndim)
+\* (self-check of the specification: with all ranks distinct the top fraction is unique and is the set Top)
+DistinctRanks == Cardinality({Ev.rank[i] : i \in 1..Len(Ev.rank)}) = Len(Ev.rank)
+Call == LET ok == /\ IntervalOK(Ev.n, Ev.burn, Ev.thin, Ev.f8, Ev.m, Ev.rank, Ev.ids, Ev.pids, Ev.ndim)
+                  /\ (DistinctRanks => TopAgrees(Select(Ev.n, Ev.burn, Ev.thin), Ev.rank, Ev.f8))
         IN okv' = ok /\ (IF ok THEN TRUE ELSE PrintT(<<"BAD", l>>))
 TraceNext == l <= Len(Log) /\ l' = l + 1 /\ Call
 TraceSpec == TraceInit /\ [][TraceNext]_vars
